@@ -461,7 +461,7 @@ func (g *c11gen) fnCase() {
 				port = port + 1 + r.Intn(100)
 			}
 			if nn := hRecord(nil, old.ID(), ip, port, old.Seq()+1, 0); nn != nil {
-				ins = append(ins, c11ins{hEnrBytes(nn), r.Bool()})
+				ins = append(ins, c11ins{hEnrBytes(nn), false}) // an update never carries a liveness check of its own
 				g.c.Count("fn_entry_record_updated_endpoint_changed")
 			}
 		}
